@@ -114,6 +114,119 @@ impl Univ {
     }
 }
 
+impl Univ {
+    /// Digits (per fragment) of the lists that are present.
+    fn lists(&self, mc: u64) -> Vec<u64> {
+        let t1 = self.t() + 1;
+        let mut v = vec![];
+        if mc / t1 > 0 {
+            v.push(mc / t1 - 1);
+        }
+        if mc % t1 > 0 {
+            v.push(mc % t1 - 1);
+        }
+        v
+    }
+    /// Conservative predicate: could evaluating an operator over these tree maps materialise
+    /// `RoaringBitmap::full()` (512 MiB, ~1 s)?  True when some fragment is Full in one of the
+    /// lists and a bitmap in another.
+    fn costly(&self, tms: &[u64]) -> bool {
+        let b = self.b();
+        (0..self.nf).any(|f| {
+            let ds: Vec<u64> = tms.iter().map(|c| (c / b.pow(f)) % b).collect();
+            ds.iter().any(|d| *d == 1) && ds.iter().any(|d| *d >= 2)
+        })
+    }
+}
+
+impl Univ {
+    fn digit(&self, c: u64, f: u32) -> u64 {
+        (c / self.b().pow(f)) % self.b()
+    }
+    /// a - b materialises a full bitmap iff some fragment is Full in a and a bitmap in b
+    fn sub_costly(&self, a: u64, b: u64) -> bool {
+        (0..self.nf).any(|f| self.digit(a, f) == 1 && self.digit(b, f) >= 2)
+    }
+    fn split(&self, mc: u64) -> (Option<u64>, Option<u64>) {
+        let t1 = self.t() + 1;
+        (
+            if mc / t1 > 0 { Some(mc / t1 - 1) } else { None },
+            if mc % t1 > 0 { Some(mc % t1 - 1) } else { None },
+        )
+    }
+    fn norm_costly(&self, mc: u64) -> bool {
+        matches!(self.split(mc), (Some(a), Some(b)) if self.sub_costly(a, b))
+    }
+    /// x | y : normalize both, then block - other's allow
+    fn or_costly(&self, x: u64, y: u64) -> bool {
+        if self.norm_costly(x) || self.norm_costly(y) {
+            return true;
+        }
+        let (xa, xb) = self.split(x);
+        let (ya, yb) = self.split(y);
+        let c1 = matches!((xa, xb, ya), (None, Some(b), Some(a)) if self.sub_costly(b, a));
+        let c2 = matches!((ya, yb, xa), (None, Some(b), Some(a)) if self.sub_costly(b, a));
+        c1 || c2
+    }
+    /// tm.mask(m): tm &= allow ; tm -= block
+    fn mask_costly(&self, tm: u64, mc: u64) -> bool {
+        let (al, bl) = self.split(mc);
+        match bl {
+            None => false,
+            Some(b) => (0..self.nf).any(|f| {
+                self.digit(tm, f) == 1
+                    && al.map(|a| self.digit(a, f) == 1).unwrap_or(true)
+                    && self.digit(b, f) >= 2
+            }),
+        }
+    }
+}
+
+/// Deterministic sampling of the costly cases: a counting pass first measures how many costly
+/// cases each operator has, the recording pass then takes about `budget` of them per operator
+/// (chosen by a seeded hash of the arguments) and counts the rest as skipped.
+struct Sampler {
+    seed: u64,
+    budget: u64,
+    counting: bool,
+    costly: std::collections::BTreeMap<String, u64>,
+    skipped: std::collections::BTreeMap<String, u64>,
+}
+impl Sampler {
+    fn take(&mut self, op: &str, costly: bool, a: u64, b: u64) -> bool {
+        if !costly {
+            return !self.counting;
+        }
+        if self.counting {
+            *self.costly.entry(op.to_string()).or_insert(0) += 1;
+            return false;
+        }
+        let total = self.costly.get(op).copied().unwrap_or(0);
+        let k = (total / self.budget).max(1);
+        let mut h = self.seed ^ 0x9E3779B97F4A7C15;
+        for x in [a, b, op.len() as u64, op.as_bytes()[op.len() - 1] as u64] {
+            h = (h ^ x).wrapping_mul(0x100000001B3).rotate_left(23);
+        }
+        if h % k == 0 {
+            true
+        } else {
+            *self.skipped.entry(op.to_string()).or_insert(0) += 1;
+            false
+        }
+    }
+}
+
+struct W {
+    inner: Option<TraceWriter>,
+}
+impl W {
+    fn emit(&mut self, v: Value) {
+        if let Some(w) = &mut self.inner {
+            w.emit(v);
+        }
+    }
+}
+
 fn opt_u64(v: Option<u64>) -> Value {
     match v {
         Some(n) if n < (1 << 30) => json!(n),
@@ -223,9 +336,22 @@ enum Tree {
     O(Box<Tree>, Box<Tree>),
 }
 impl Tree {
+    fn leaf_codes(&self, out: &mut Vec<u64>) {
+        match self {
+            Tree::L(_, c) => out.push(*c),
+            Tree::N(x) => x.leaf_codes(out),
+            Tree::A(x, y) | Tree::O(x, y) => {
+                x.leaf_codes(out);
+                y.leaf_codes(out);
+            }
+        }
+    }
     fn json(&self) -> Value {
         match self {
-            Tree::L(t, c) => json!(["L", ["Exact", "AtMost", "AtLeast"][*t as usize], c]),
+            Tree::L(t, c) => {
+                let tag = ["Exact", "AtMost", "AtLeast"][*t as usize];
+                json!(["L", tag, c])
+            }
             Tree::N(x) => json!(["N", x.json()]),
             Tree::A(x, y) => json!(["A", x.json(), y.json()]),
             Tree::O(x, y) => json!(["O", x.json(), y.json()]),
@@ -296,8 +422,39 @@ fn main() {
         _ => panic!("unknown embedding"),
     };
     let u = Univ { nf, nr, fid, off };
-    let mut w = TraceWriter::create(&out);
-    w.emit(json!(["univ", nf, nr, embed, u.fid, u.off]));
+    let mut sm = Sampler {
+        seed: args.num("seed", 0),
+        budget: args.num("costly-budget", 4),
+        counting: true,
+        costly: Default::default(),
+        skipped: Default::default(),
+    };
+    let mut total = 0;
+    for pass in 0..2 {
+        sm.counting = pass == 0;
+        let mut w = W {
+            inner: if pass == 0 { None } else { Some(TraceWriter::create(&out)) },
+        };
+        record(&args, &u, &embed, &section, max_leaves, &mut sm, &mut w);
+        if let Some(mut tw) = w.inner.take() {
+            tw.emit(json!(["skipped", sm.skipped]));
+            total = tw.finish();
+        }
+    }
+    println!("{{\"events\":{total}}}");
+}
+
+fn record(
+    args: &Args,
+    u: &Univ,
+    embed: &str,
+    section: &str,
+    max_leaves: usize,
+    sm: &mut Sampler,
+    w: &mut W,
+) {
+    let (nf, nr) = (u.nf, u.nr);
+    w.emit(json!(["univ", nf, nr, embed, u.fid.clone(), u.off.clone()]));
     let t = u.t();
     let nmask = (t + 1) * (t + 1);
     let nu = u.nu();
@@ -310,7 +467,7 @@ fn main() {
             w.emit(json!(["tm_len", c, opt_u64(m.len())]));
             w.emit(json!(["tm_is_empty", c, m.is_empty()]));
             let it: Value = match m.row_ids() {
-                None => json!(-1),
+                None => json!([-1]),
                 Some(it) => json!(it.map(|a| u.idx_of_addr(u64::from(a))).collect::<Vec<_>>()),
             };
             w.emit(json!(["tm_iter", c, it]));
@@ -324,13 +481,29 @@ fn main() {
                 let mut x = m.clone();
                 let r = x.insert(u.addr_of_idx(i));
                 w.emit(json!(["tm_insert", c, i, r, u.probe_tm(&x)]));
-                let mut x = m.clone();
-                let r = x.remove(u.addr_of_idx(i));
-                w.emit(json!(["tm_remove", c, i, r, u.probe_tm(&x)]));
+                let f = i / (nr + 1);
+                let costly = f < nf && (c / u.b().pow(f)) % u.b() == 1;
+                if sm.take("tm_remove", costly, c, i as u64) {
+                    let mut x = m.clone();
+                    let r = x.remove(u.addr_of_idx(i));
+                    w.emit(json!(["tm_remove", c, i, r, u.probe_tm(&x)]));
+                }
             }
-            // ranges between universe points
+            // ranges between universe points.  insert_range walks every fragment id between the
+            // bounds, so ranges that span fragments are only issued in the dense embedding and
+            // unbounded upper ends are never issued (they would enumerate 2^32 fragments).
+            let dense = embed == "dense";
+            let per = nr + 1;
             for lo in 0..nu {
                 for hi in 0..nu {
+                    let cross = lo / per != hi / per;
+                    if cross && !dense {
+                        continue;
+                    }
+                    // a range spanning fragments materialises full bitmaps for the fragments in between
+                    if !sm.take("tm_range", cross && lo < hi, c * 1000 + lo as u64, hi as u64) {
+                        continue;
+                    }
                     let (a, b) = (u.addr_of_idx(lo), u.addr_of_idx(hi));
                     for kind in ["incl", "excl", "exin"] {
                         let mut x = m.clone();
@@ -347,20 +520,16 @@ fn main() {
                         }
                     }
                 }
-                let a = u.addr_of_idx(lo);
-                let mut x = m.clone();
-                x.insert_range(a..);
-                w.emit(json!(["tm_range", c, "from", lo, lo, -3, u.probe_tm(&x)]));
-                let mut x = m.clone();
-                x.insert_range(..a);
-                w.emit(json!(["tm_range", c, "to", lo, lo, -3, u.probe_tm(&x)]));
-                let mut x = m.clone();
-                x.insert_range(..=a);
-                w.emit(json!(["tm_range", c, "toin", lo, lo, -3, u.probe_tm(&x)]));
+                if lo / per == 0 {
+                    let a = u.addr_of_idx(lo);
+                    let mut x = m.clone();
+                    x.insert_range(..a);
+                    w.emit(json!(["tm_range", c, "to", lo, lo, -3, u.probe_tm(&x)]));
+                    let mut x = m.clone();
+                    x.insert_range(..=a);
+                    w.emit(json!(["tm_range", c, "toin", lo, lo, -3, u.probe_tm(&x)]));
+                }
             }
-            let mut x = m.clone();
-            x.insert_range(..);
-            w.emit(json!(["tm_range", c, "full", 0, 0, -3, u.probe_tm(&x)]));
         }
     }
     if want("tm2") {
@@ -369,8 +538,10 @@ fn main() {
                 let (x, y) = (u.tm(a), u.tm(b));
                 w.emit(json!(["tm_or", a, b, u.probe_tm(&(x.clone() | y.clone()))]));
                 w.emit(json!(["tm_and", a, b, u.probe_tm(&(x.clone() & y.clone()))]));
-                let d = x.clone() - y.clone();
-                w.emit(json!(["tm_sub", a, b, u.probe_tm(&d)]));
+                if sm.take("tm_sub", u.sub_costly(a, b), a, b) {
+                    let d = x.clone() - y.clone();
+                    w.emit(json!(["tm_sub", a, b, u.probe_tm(&d)]));
+                }
                 let un = RowIdTreeMap::union_all(&[&x, &y]);
                 w.emit(json!(["tm_or", a, b, u.probe_tm(&un)]));
                 let mut e = x.clone();
@@ -380,9 +551,11 @@ fn main() {
         }
         for a in 0..t {
             for mc in 0..nmask {
-                let mut x = u.tm(a);
-                x.mask(&u.mask(mc));
-                w.emit(json!(["tm_mask", a, mc, u.probe_tm(&x)]));
+                if sm.take("tm_mask", u.mask_costly(a, mc), a, mc) {
+                    let mut x = u.tm(a);
+                    x.mask(&u.mask(mc));
+                    w.emit(json!(["tm_mask", a, mc, u.probe_tm(&x)]));
+                }
             }
         }
     }
@@ -391,12 +564,18 @@ fn main() {
         for mc in 0..nmask {
             let m = u.mask(mc);
             w.emit(json!(["m_sel", mc, u.probe_mask(&m)]));
-            w.emit(json!(["m_not", mc, u.probe_mask(&!m.clone())]));
-            let n = m.clone().normalize();
-            w.emit(json!(["m_norm", mc, u.probe_mask(&n), n.block_list.is_none() || n.allow_list.is_none()]));
+            let costly1 = u.norm_costly(mc);
+            if sm.take("m_not", costly1, mc, 0) {
+                w.emit(json!(["m_not", mc, u.probe_mask(&!m.clone())]));
+            }
+            if sm.take("m_norm", costly1, mc, 0) {
+                let n = m.clone().normalize();
+                let single = n.block_list.is_none() || n.allow_list.is_none();
+                w.emit(json!(["m_norm", mc, u.probe_mask(&n), single]));
+            }
             w.emit(json!(["m_max_len", mc, opt_u64(m.max_len())]));
             let it: Value = match m.iter_ids() {
-                None => json!(-1),
+                None => json!([-1]),
                 Some(it) => json!(it.map(|a| u.idx_of_addr(u64::from(a))).collect::<Vec<_>>()),
             };
             w.emit(json!(["m_iter", mc, it]));
@@ -421,7 +600,9 @@ fn main() {
             for b in 0..nmask {
                 let y = u.mask(b);
                 w.emit(json!(["m_and", a, b, u.probe_mask(&(x.clone() & y.clone()))]));
-                w.emit(json!(["m_or", a, b, u.probe_mask(&(x.clone() | y))]));
+                if sm.take("m_or", u.or_costly(a, b), a, b) {
+                    w.emit(json!(["m_or", a, b, u.probe_mask(&(x.clone() | y))]));
+                }
             }
         }
     }
@@ -434,7 +615,12 @@ fn main() {
                 leaves.push(Tree::L(tag, c));
             }
         }
-        for tr in trees(&leaves, max_leaves) {
+        for (ti, tr) in trees(&leaves, max_leaves).into_iter().enumerate() {
+            let mut codes = vec![];
+            tr.leaf_codes(&mut codes);
+            if !sm.take("ev", u.costly(&codes), ti as u64, 0) {
+                continue;
+            }
             let e = tr.expr();
             let res = rt.block_on(e.evaluate(&loader, &NoOpMetricsCollector)).unwrap();
             let tag = match &res {
@@ -445,6 +631,4 @@ fn main() {
             w.emit(json!(["ev", tr.json(), tag, u.probe_mask(res.row_id_mask())]));
         }
     }
-    let n = w.finish();
-    println!("{{\"events\":{n}}}");
 }
